@@ -47,7 +47,9 @@ def one(ctx, LP, D, ph, mode):
     g = LP.LAlg.unitary_from_angles(ph)
     try:
         with core.quiet():
-            ph2 = [float(x) for x in D.angseq(g)]
+            raw = D.angseq(g)
+            ph2 = [float(x) for x in raw]
+            core.poison(raw)          # the caller owns the returned list
         out = "ok"
     except Exception as e:  # noqa
         out, ph2 = type(e).__name__ + ": " + str(e)[:60], None
